@@ -476,7 +476,7 @@ func suitable(op string, d Desc) bool {
 	m := maxAbs(d)
 	switch op {
 	case "remove_null":
-		return m <= 1000
+		return m <= 10000 // the area test is only close to its threshold for small cross products, which are exact
 	case "rotate", "apply_trs", "repeat", "scale3", "scale2", "scale_along_normal":
 		return m <= 1000000
 	case "center":
@@ -502,17 +502,50 @@ func Chain(run *hx.Run, r *hx.Rng, kinds []string, maxDepth int) {
 	if r.Chance(1, 8) {
 		opt.Even = true
 	}
-	cur := Random(r, opt)
+	var cur Desc
+	focus := false  // structured source: mostly the index-remapping operations
+	subsel := false // first step: SetIndices with a subset of the mesh's own primitives
+	switch r.Intn(9) {
+	case 0, 1, 2:
+		var stray, degen string
+		cur, stray, degen = Structured(r)
+		run.Count("source:structured")
+		run.Count("structured:stray=" + stray)
+		run.Count("structured:degenerate=" + degen)
+		focus = true
+		subsel = r.Chance(1, 4)
+	case 3:
+		var name string
+		cur, name = FromGenerator(r)
+		run.Count("source:generator:" + name)
+		focus = true
+		subsel = r.Chance(4, 5)
+	default:
+		cur = Random(r, opt)
+		run.Count("source:random")
+		subsel = r.Chance(1, 12)
+	}
 	pool := []Desc{cur}
 	depth := r.Range(1, maxDepth)
+	if subsel && depth < 2 {
+		depth = 2
+	}
 	for s := 0; s < depth; s++ {
 		var o OpDesc
+		stepKinds := kinds
+		if focus && r.Chance(3, 4) {
+			stepKinds = FocusOps
+		}
 		for tries := 0; tries < 20; tries++ {
-			o = RandomOp(r, cur, kinds)
+			o = RandomOp(r, cur, stepKinds)
 			if suitable(o.Op, cur) {
 				break
 			}
 			o = OpDesc{Op: "unweld"}
+		}
+		if subsel && s == 0 {
+			o = SubselectOp(r, cur)
+			run.Count("op:set_indices:subselect")
 		}
 		sd := StepDesc{Ins: []Desc{cur}, Op: o}
 		if o.Op == "append" {
@@ -566,6 +599,16 @@ func Law(run *hx.Run, r *hx.Rng) {
 		opt.NeedPos = true
 	}
 	ld := LawDesc{Law: law, In: Random(r, opt)}
+	if r.Chance(1, 2) {
+		for tries := 0; tries < 8; tries++ {
+			d, _, _ := Structured(r)
+			if !opt.FixTopo || d.Topo == opt.Topo {
+				ld.In = d
+				run.Count("law:structured-input")
+				break
+			}
+		}
+	}
 	if law == "weldunweld" {
 		ld.Attr = "Position"
 		ld.Decimal = hx.Pick(r, []int{0, 2, -1, -2})
